@@ -24,7 +24,9 @@ def _expr(rng, depth=0):
     r = rng.random()
     if depth > 2 or r < 0.25:
         return rng.choice(["1", "x", "y", "None", "'s'", '"t # not comment"', "foo.bar", "os.sep",
-                           "'é'", "b'by'", "2.5", "[]", "{}", "'#'", '"\\\\"'])
+                           "'é'", "b'by'", "2.5", "[]", "{}", "'#'", '"\\\\"',
+                           "'\U0001f389'", '"\U0001d4b3 # astral"', "'a\x0cb'", "'a\x0bb'", "'a\x1cb'", "'a\x85b'",
+                           "'a\u2028b'", "'a\u2029b \x1d'", "'\U0001f389' + x"])
     if r < 0.40:
         return "%s(%s)" % (rng.choice(["f", "foo", "os.getcwd", "len", "print"]),
                            ", ".join(_expr(rng, depth + 1) for _ in range(rng.randint(0, 2))))
@@ -38,7 +40,8 @@ def _expr(rng, depth=0):
         return "%s + \\\n    %s" % (_expr(rng, 3), _expr(rng, 3))
     if r < 0.76:
         q = rng.choice(["'''", '"""'])
-        body = rng.choice(["multi\nline", "a\n# not a comment\nb", "\n\n", "x\n    indented\n", "é\nü", "tail\\\nmore"])
+        body = rng.choice(["multi\nline", "a\n# not a comment\nb", "\n\n", "x\n    indented\n", "é\nü", "tail\\\nmore",
+                           "a\n   \nb", "a\n\t\nb", "\U0001f389\n \n", "p\x0cq\nr\u2028s"])
         return q + body + q
     if r < 0.82:
         return rng.choice(['f"a{x}b"', "f'{x!r:>{y}}'", 'f"""m\n{x}\nn"""', "f'{x}' 'lit'", "'a' 'b'", "'a' \\\n    'b'",
@@ -144,7 +147,7 @@ def gen_compound(rng, depth=0, ind=""):
         head = "%sdef %s(%s)%s:" % (rng.choice(["", "", "async "]), rng.choice(["f", "g", "h"]), args, ret)
         return deco + ind + head + rng.choice(["", "  # hc"]) + "\n" + gen_body(rng, depth, ind2)
     if r < 0.40:
-        head = "class %s%s:" % (rng.choice(["C", "D"]), rng.choice(["", "(B)", "(B, metaclass=M)", "()"]))
+        head = "class %s%s:" % (rng.choice(["C", "D"]), rng.choice(["", "(B)", "(B, metaclass=M)", "()", "(metaclass=M, *Bs)", "(B, *Bs, k=1, **kw)", "(k=1, *Bs)"]))
         return deco + ind + head + "\n" + gen_body(rng, depth, ind2)
     if r < 0.55:
         s = ind + "if %s:\n%s" % (_expr(rng, 2), gen_body(rng, depth, ind2))
@@ -195,7 +198,8 @@ def gen_filler(rng):
     out = []
     for _ in range(k):
         out.append(rng.choice(["", "", "# comment", "#", "   # indented comment", "   ", "\t", "\f", "# é ünï",
-                               "# trailing backslash \\", "#!shebang-like", "# x = '''", "\f# ff comment"]) + "\n")
+                               "# trailing backslash \\", "#!shebang-like", "# x = '''", "\f# ff comment",
+                               "# \U0001f389 astral", "# vt \x0b fs \x1c nel \x85 ls \u2028 end", "\f\f# two ff", " \f # sp ff"]) + "\n")
     return "".join(out)
 
 
@@ -246,7 +250,8 @@ def gen_module(rng, max_items=6, want_imports=True, final_newline=None, prologue
             if rng.random() < 0.08:
                 line += rng.choice([";", " ;"])
             if rng.random() < 0.25:
-                line += rng.choice(["  # trailing", " #c", "  # é", "  # type: int", "  # type: ignore", " # type: (int) -> str"])
+                line += rng.choice(["  # trailing", " #c", "  # é", "  # type: int", "  # type: ignore", " # type: (int) -> str",
+                                    "  # \U0001f389", "  # a\x0cb\u2028c"])
             parts.append(line + "\n")
             i += k
         parts.append(gen_filler(rng))
